@@ -43,6 +43,11 @@ FAULTS = [
     ('open-verb', 'Alpha @\\verb|xyz\nBeta gamma', 'Beta gamma'),
     ('open-verb-eof', 'Alpha beta @\\verb', 'Alpha beta'),
     ('open-verbatim', 'Alpha\n@\\begin{verbatim}\nBeta gamma', 'Beta gamma'),
+    # the fault on the last line of a text that does not end with a line break
+    ('open-verb-lastline', 'Alpha beta.\nGamma delta @\\verb|xyz abc', 'Gamma delta'),
+    ('open-verb-lastline-blank', 'Alpha beta.\nGamma delta @\\verb|xyz abc  ', 'Gamma delta'),
+    ('open-verb-lastline-nl', 'Alpha beta.\nGamma delta @\\verb|xyz abc\n', 'Gamma delta'),
+    ('open-verbatim-lastline', 'Alpha beta.\nGamma delta\n@\\begin{verbatim} xyz abc', 'Gamma delta'),
     ('open-skip', 'Alpha\n@%%% LT-SKIP-BEGIN\nBeta gamma\n', 'Beta gamma'),
     ('accent-nonletter', "Alpha @\\'1 Beta gamma", 'Beta gamma'),
     ('accent-nonletter2', 'Alpha @\\"{?} Beta gamma', 'Beta gamma'),
